@@ -305,7 +305,14 @@ func judgeAmountText(c TextCase, o *vh.Obs) {
 	}
 	val, exp, member, fits := refParse(s, amountRe, false)
 	accept := member && fits
+	// beyond 1000 decimals the writer gives up (the package's tests pin "NA"):
+	// such a text may be refused, and when it is read it must still be written
+	// back exactly
+	optional := accept && exp > 1000
 	switch {
+	case optional:
+		o.Class("member-beyond-writer-limit")
+		o.NonTrivial()
 	case !member:
 		o.Class("non-member")
 		o.NonTrivial()
@@ -363,6 +370,12 @@ func judgeAmountText(c TextCase, o *vh.Obs) {
 		results = append(results, result{"json(bare)", h.Amount, err})
 	}
 	for _, r := range results {
+		if optional && r.err != nil {
+			if r.a.Value() != sentinelV || r.a.Exp() != sentinelE {
+				o.Failf("amount-text:receiver-changed", "%s(%.40q...) failed (%v) but changed the receiver to %d/%d", r.path, s, r.err, r.a.Value(), r.a.Exp())
+			}
+			continue
+		}
 		if accept {
 			if r.err != nil {
 				o.Failf("amount-text:rejected-member", "%s(%q): pattern member within int64 rejected: %v", r.path, s, r.err)
@@ -419,7 +432,15 @@ func judgePercentText(c TextCase, o *vh.Obs) {
 		val, exp, member, fits, allowed = big.NewInt(0), 0, true, true, "empty"
 	}
 	accept := member && fits
+	textDecimals := exp
+	if allowed == "pattern" {
+		textDecimals = exp - 2
+	}
+	optional := accept && textDecimals > 1000 // see judgeAmountText
 	switch {
+	case optional:
+		o.Class("member-beyond-writer-limit")
+		o.NonTrivial()
 	case !member:
 		o.Class("non-member")
 		o.NonTrivial()
@@ -472,6 +493,12 @@ func judgePercentText(c TextCase, o *vh.Obs) {
 		}
 	}
 	for _, r := range results {
+		if optional && r.err != nil {
+			if r.p.Value() != sentinelV || r.p.Exp() != sentinelE {
+				o.Failf("percent-text:receiver-changed", "%s(%.40q...) failed (%v) but changed the receiver to %d/%d", r.path, s, r.err, r.p.Value(), r.p.Exp())
+			}
+			continue
+		}
 		if accept {
 			if r.err != nil {
 				o.Failf("percent-text:rejected-member", "%s(%q): acceptable text (%s) within int64 rejected: %v", r.path, s, allowed, r.err)
@@ -479,6 +506,12 @@ func judgePercentText(c TextCase, o *vh.Obs) {
 			}
 			if big.NewInt(r.p.Value()).Cmp(val) != 0 || int(r.p.Exp()) != exp {
 				o.Failf("percent-text:wrong-value", "%s(%q) = value %d exp %d, text means value %s exp %d", r.path, s, r.p.Value(), r.p.Exp(), val, exp)
+				continue
+			}
+			// whatever was read can be written again and read back as the same value
+			back := r.p.String()
+			if p2, err := num.PercentageFromString(back); err != nil || !percentRe.MatchString(back) || p2.Compare(r.p) != 0 {
+				o.Failf("percent-text:rewrite", "%s(%.60q) was read as value %s exp %d but is written back as %.60q, which reads as %v (%v)", r.path, s, val, exp, back, p2, err)
 			}
 			continue
 		}
@@ -616,12 +649,20 @@ var fixedTexts = []string{
 	"18446744073709551616", "1.8446744073709551616", "99999999999999999999", "NaN", "Inf", "-Inf", "true", "\"1\"", "1%", "%",
 }
 
+// very long decimal parts whose value still fits (the writer once gave up
+// beyond 1000 decimals)
+var longTexts = []string{
+	"0." + strings.Repeat("0", 999), "0." + strings.Repeat("0", 1000), "0." + strings.Repeat("0", 1001), "-0." + strings.Repeat("0", 1500),
+	"0." + strings.Repeat("0", 1000) + "1", "-0." + strings.Repeat("0", 1200) + "123", "12." + strings.Repeat("0", 1001), "0." + strings.Repeat("0", 5000) + "9223372036854775807",
+	"0." + strings.Repeat("0", 5000) + "9223372036854775808",
+}
+
 func enumFixed(pct bool) func(yield func(TextCase) bool) {
 	return func(yield func(TextCase) bool) {
 		if vh.Cfg().Shard != 0 {
 			return
 		}
-		for _, s := range fixedTexts {
+		for _, s := range append(append([]string{}, fixedTexts...), longTexts...) {
 			if !yield(TextCase{Text: s, Kind: "fixed"}) {
 				return
 			}
@@ -644,6 +685,7 @@ func init() {
 		"the pattern published in data/schemas/num/*.json is the referee for membership",
 		"JSON null (and the literal text null that carries it to UnmarshalText) is a no-op by encoding/json convention",
 		"percentages also accept the documented factor form without % and the empty string (asserted by existing tests)",
+		"a text with more than 1000 decimals may be refused: the writer gives up there (TestPercentageString pins \"NA%\"); when such a text is read it must be written back exactly",
 	)
 	vh.Rapid("amount_roundtrip", 200_000, 6_000_000, genAmountCase, judgeAmountRoundTrip)
 	vh.Rapid("percent_roundtrip", 100_000, 3_000_000, genPercentCase, judgePercentRoundTrip)
